@@ -60,7 +60,7 @@ def point_sets(draw, n, d, allow_dups=False):
 def gp_problems(draw, max_n=25, max_d=3, max_m=8, kernels=None, means=("Constant", "Linear", "Quadratic"),
                 noises=("none", "y_err", "y_cov_full", "y_cov_diag"), max_depth=3, min_n=1, allow_hetero=True):
     d = draw(st.integers(1, max_d))
-    n = draw(st.one_of(st.integers(min_n, min(6, max_n)), st.integers(min_n, max_n)))
+    n = draw(st.one_of(st.integers(min_n, max(min_n, min(6, max_n))), st.integers(min_n, max_n)))
     noise = draw(st.sampled_from(list(noises)))
     spec = draw(kernel_specs(d, max_depth=max_depth, hetero=allow_hetero, only=kernels))
     has_noise_kernel = rk.has(spec, "White") or rk.has(spec, "Hetero")
@@ -187,11 +187,25 @@ def mean_theta(case, X, y, ys):
     d = X.shape[1]
     kind = case["mean"]
     u = case["mean_u"]
-    span = np.ptp(X, axis=0)
-    span = np.where(span > 0, span, 1.0)
+    span = effective_span(X)
     th = [float(np.mean(y)) + ys * 2 * (u[0] - 0.5)]
     if kind in ("Linear", "Quadratic"):
         th += [ys / span[j] * 4 * (u[1 + j] - 0.5) for j in range(d)]
     if kind == "Quadratic":
         th += [ys / span[j] ** 2 * 4 * (u[1 + d + j] - 0.5) for j in range(d)]
     return np.array(th)
+
+
+def mean_roundoff(kind, th_mean, X, Q=None):
+    """absolute rounding error of evaluating the documented mean function in float64: the centred coordinates
+    (x - centroid) carry eps*|x| each, multiplied by the slope / curvature coefficients"""
+    d = X.shape[1]
+    mag = np.abs(X).max(axis=0)
+    if Q is not None and len(Q):
+        mag = np.maximum(mag, np.abs(np.asarray(Q)).max(axis=0))
+    full = np.concatenate([np.asarray(th_mean, dtype=float), np.zeros(1 + 2 * d - len(th_mean))])
+    eps = np.finfo(float).eps
+    out = 64 * eps * float(np.sum(np.abs(full[1:1 + d]) * mag))
+    if kind == "Quadratic":
+        out += 128 * eps * float(np.sum(np.abs(full[1 + d:]) * mag**2))
+    return out + 8 * eps * abs(full[0])
